@@ -122,6 +122,8 @@ type pConfig struct {
 	EnumValidator   bool       `json:"generateEnumValidator,omitempty"`    // experimentalConfig.generateEnumValidator
 	TopLevelEnum    bool       `json:"validateTopLevelOnlyEnum,omitempty"` // experimentalConfig.validateTopLevelOnlyEnum
 	ValidateResp    bool       `json:"validateResponsePayload,omitempty"`  // routesConfig.validateResponsePayload
+	RoutesOut         string   `json:"routesOut,omitempty"` // routesConfig.outputPath when it is not the default
+	SpecOut           string   `json:"specOut,omitempty"`   // specGeneratorConfig.outputPath when it is not the default
 	AllowLoadFailures bool     `json:"allowPackageLoadFailures,omitempty"` // commonConfig.allowPackageLoadFailures, plus a file of package ctl that does not load
 }
 
@@ -436,6 +438,13 @@ func GleeceRequestAuthorization(ctx context.Context, ginCtx *gin.Context, check 
 	return texts, nil
 }
 
+func orDefault(s, d string) string {
+	if s != "" {
+		return s
+	}
+	return d
+}
+
 func configText(c pConfig) string {
 	if c.Raw != "" {
 		return c.Raw
@@ -466,7 +475,7 @@ func configText(c pConfig) string {
 		"openapi": c.OpenAPI,
 		"info":    map[string]any{"title": "T", "version": "1.0.0", "description": "d"},
 		"baseUrl": "https://api.example.com", "securitySchemes": schemes,
-		"specGeneratorConfig": map[string]any{"outputPath": "./dist/openapi.json"},
+		"specGeneratorConfig": map[string]any{"outputPath": orDefault(c.SpecOut, "./dist/openapi.json")},
 	}
 	if c.DefaultSecurity != nil {
 		sc := c.DefaultSecurity.Scopes
@@ -477,7 +486,7 @@ func configText(c pConfig) string {
 	}
 	cfg := map[string]any{
 		"commonConfig": map[string]any{"controllerGlobs": globs, "allowPackageLoadFailures": c.AllowLoadFailures},
-		"routesConfig": map[string]any{"engine": c.Engine, "outputPath": "./dist/routes/gleece.go", "outputFilePerms": "0644", "packageName": c.PackageName,
+		"routesConfig": map[string]any{"engine": c.Engine, "outputPath": orDefault(c.RoutesOut, "./dist/routes/gleece.go"), "outputFilePerms": "0644", "packageName": c.PackageName,
 			"skipGenerateDateComment": true,
 			"authorizationConfig":     map[string]any{"authFileFullPackageName": projModule + "/auth", "enforceSecurityOnAllRoutes": c.Enforce}},
 		"openapiGeneratorConfig": oa,
